@@ -850,7 +850,28 @@ func c03(c *core.Ctx) {
 		}{{"UpdateFork", 2}, {"UpdateForkForConfirm", 1}} {
 			fn := c.Fn(cons + ".ForkManager." + spec.name)
 			cuts := core.CallsIn(fn, cut)
-			heads := core.CallsIn(fn, setHead)
+			// where the head is set: SetHeadBlock(x) in fn, or a same-package helper that is handed x and calls SetHeadBlock with it
+			type headSite struct {
+				in  ssa.CallInstruction
+				arg ssa.Value
+			}
+			var heads []headSite
+			for _, h := range core.CallsIn(fn, setHead) {
+				heads = append(heads, headSite{h, h.Common().Args[1]})
+			}
+			for _, ci := range core.AllCalls(fn) {
+				hf := core.StaticFn(ci)
+				if hf == nil || hf.Pkg != fn.Pkg || hf.Blocks == nil || hf == fn || core.CalleeObj(ci) == setHead {
+					continue
+				}
+				for _, hs := range core.CallsIn(hf, setHead) {
+					for i, q := range hf.Params {
+						if hs.Common().Args[1] == ssa.Value(q) && i < len(ci.Common().Args) {
+							heads = append(heads, headSite{ci, ci.Common().Args[i]})
+						}
+					}
+				}
+			}
 			ok := len(cuts) == 1 && len(heads) >= 1
 			why := "needs exactly one isCurrentForkCut call and a SetHeadBlock call"
 			if ok {
@@ -863,12 +884,13 @@ func c03(c *core.Ctx) {
 						continue
 					}
 					okHead := true
-					for _, h := range heads {
+					for _, hd := range heads {
+						h := hd.in
 						if !core.CanReach(cutEdge, h.Block()) {
 							okHead, why = false, "SetHeadBlock is not reachable from the cut branch"
 							continue
 						}
-						arg := h.Common().Args[1]
+						arg := hd.arg
 						vals := []ssa.Value{}
 						if phi, isPhi := arg.(*ssa.Phi); isPhi {
 							for i, p := range phi.Block().Preds {
